@@ -12,7 +12,15 @@ RULE = ('generated programs placing byte lines via .org (absolute, zone-relative
 EXPLANATION = ('Theorems in Props/C04.lean: on the address-sorted list the adjacent check passes iff the occupying lines are '
                'pairwise disjoint; independent of source order; zero-length lines never matter; the sort is a stable permutation.')
 ASSUMPTIONS = []
-to_impl, to_model = LB.to_impl, LB.to_model
+to_model = LB.to_model
+
+
+def to_impl(case):
+    if case.get('nobin'):
+        # no binary image requested (-n), only a listing: an overlap is an error whatever outputs are asked for
+        import impl
+        return impl.compile_case(P.make_isa(case['cfg']), LB.render(case), pretty=case['nobin'], extra_argv=['-n'])
+    return LB.to_impl(case)
 
 
 def gen_case(rng, tier):
@@ -34,7 +42,8 @@ def gen_case(rng, tier):
         if rng.random() < 0.3:
             gadget = gadget[2:] + gadget[:2]          # source order is irrelevant
         stmts = stmts + gadget
-    return {'cfg': cfg, 'files': [stmts], 'start': 0, 'end': None, 'fill': 0, 'seed': rng.randrange(1 << 30)}
+    nobin = rng.choice(['listing', 'intel_hex', 'hex']) if rng.random() < 0.2 else None
+    return {'cfg': cfg, 'files': [stmts], 'start': 0, 'end': None, 'fill': 0, 'seed': rng.randrange(1 << 30), 'nobin': nobin}
 
 
 def generate(rng, tier):
@@ -43,6 +52,21 @@ def generate(rng, tier):
 
 def judge(case, ir, mr):
     tags = []
+    if case.get('nobin'):
+        tags.append('no-binary-run')
+        det = f'-n -p -t {case["nobin"]}; files={LB.render(case)!r}'[:1500]
+        if ir['status'] == 'timeout':
+            return {'verdict': Verdict.VIOLATION, 'detail': 'no termination; ' + det, 'tags': tags}
+        ok = ir['status'] == 'ok'
+        if 'err' in mr and ok:
+            kind = Verdict.VIOLATION
+            what = 'two byte lines share an address but' if mr.get('overlapSpec') else f'model/spec rejects ({mr["err"]}) but'
+            return {'verdict': kind, 'tags': tags, 'detail': f'{what} the run without a binary image reports success; ' + det}
+        if 'err' not in mr and not ok:
+            return {'verdict': Verdict.VIOLATION, 'tags': tags,
+                    'detail': f'model/spec assembles, the run without a binary image fails: {str(ir.get("msg"))[:200]}; ' + det}
+        tags.append('spec:overlap' if mr.get('overlapSpec') else 'spec:disjoint')
+        return {'verdict': Verdict.OK, 'nontrivial': mr.get('overlapSpec') is not None, 'tags': tags, 'detail': det[:300]}
     bad, actual, det = LB.base_judge(case, ir, mr, tags)
     ov = mr.get('overlapSpec')
     lines = mr.get('lines') or []
